@@ -346,6 +346,10 @@ func DecodeBoxLazyMdat(startPos uint64, r io.ReadSeeker) (Box, error) {
 	} else {
 		switch h.Name {
 		case "mdat":
+			if remainingLength < 0 {
+				// a size beyond 2^63 would turn the skip into a backward seek (and an endless re-parse)
+				return nil, fmt.Errorf("decode box %q: size %d is too large", h.Name, h.Size)
+			}
 			b, err = DecodeMdatLazily(h, startPos)
 			if err == nil {
 				_, err = r.Seek(remainingLength, io.SeekCurrent)
